@@ -721,7 +721,7 @@ func TestVerif_C01(t *testing.T) {
 		"the generational store is built with a ghost store as dbfactory does; GC is not part of C01 cases",
 		"a chunk never exceeds the memtable size (the journal store's memtable is shrunk through the unexported memtableSz field to reach the flush-on-full path cheaply)")
 	defer rec.Write(t)
-	vh.Check(t, "model", 220, 1500, func(rt *rapid.T) { c01Case(rt, rec) })
+	vh.Check(t, "model", 220, 800, func(rt *rapid.T) { c01Case(rt, rec) })
 	t.Run("pinned_generational_without_ghost_store", c01PinnedNilGhost)
 }
 
